@@ -38,10 +38,14 @@ func c08Lists(level int) []enumList {
 		{"i-zero", A{0, 1}, "integer"}, {"s-empty", A{"", "a"}, "string"}, {"b-false", A{false}, "boolean"},
 		{"null", A{nil}, ""},
 		{"mixed", A{"a", 1, nil, true}, ""}, {"mixed-num", A{1, 1.5}, "number"}, {"s-null", A{"a", nil}, ""},
+		// text that a format string, an interpreted or a raw string literal would mangle: the constant and the table entry must hold the exact value
+		{"s-percent", A{"50% off", "%s %d %v", "%%"}, "string"}, {"s-percent-end", A{"100%", "a%"}, "string"}, {"s-quotes", A{"q\"uote", "sl\\ash", "tab\there", "é 日本"}, "string"},
+		// members of different JSON types whose printed forms coincide
+		{"mixed-like-int", A{1, "1", 2, "2"}, ""}, {"mixed-like-bool", A{true, "true", false}, ""}, {"mixed-like-null", A{nil, "<nil>", "null"}, ""}, {"mixed2", A{"1", 1}, ""},
 	}
 	if level >= 1 {
 		ls = append(ls, enumList{"s3", A{"a", "b", "c"}, "string"}, enumList{"s-case", A{"a", "A"}, "string"},
-			enumList{"i1", A{7}, "integer"}, enumList{"n1", A{0.5}, "number"}, enumList{"mixed2", A{"1", 1}, ""})
+			enumList{"i1", A{7}, "integer"}, enumList{"n1", A{0.5}, "number"}, enumList{"s-newline", A{"line\nbreak", "cr\rlf"}, "string"})
 	}
 	return ls
 }
